@@ -535,7 +535,13 @@ def run_impl(case):
         lg.propagate, lg.handlers = old_prop, old_handlers
 
 
+_GC = [0]
+
+
 def _run_both(case, lp, out):
+    import gc
+    if gc.isenabled():
+        gc.disable()
     for name, native in (("dec", False), ("nat", True)):
         _c36._reset(lp)
         cberrs = []
@@ -548,6 +554,15 @@ def _run_both(case, lp, out):
             out[name]["cberrs"] = cberrs
         finally:
             _c36._reset(lp)
+            # A coroutine abandoned while suspended is finalised by the cyclic garbage collector at an arbitrary
+            # later allocation; its `finally:` blocks would then run `CV.set(...)` in whatever context is current —
+            # e.g. inside a LATER case's "did the variable leak to the caller" window (seen once per ~100k cases).
+            # So automatic collection is off while C37 cases run and garbage is collected here, between cases,
+            # in a neutral context.
+            _GC[0] += 1
+            if _GC[0] % 64 == 0:
+                gc.collect()
+                gc.freeze()      # survivors (results of earlier cases) need not be traversed again
     return out
 
 
